@@ -182,7 +182,7 @@ Cases ==
             n \in 0..((NBits - 1) \div 2), o \in BOOLEAN,
             x \in (IF Tier = "quick" THEN {0, 6, P - 1, 21} ELSE BoundaryX),
             \* (BoundaryX x BoundaryX over F_97 is > 6*10^6 states: measured, not finished in 50 min)
-            y \in (IF Tier = "quick" THEN {5, P - 1} ELSE {0, 5, 22, Pow2(NBits - 1), P - 2, P - 1})}
+            y \in (IF Tier = "quick" THEN {5, P - 1} ELSE {5, 22, P - 1})}
     [] Family = "arith" ->
          {NX("boolean", 0, x) : x \in AllX}
          \cup {[Cs("select") EXCEPT !.x = x, !.y = y, !.z = z] : x \in {0, 1, 2, P - 1}, y \in {0, 5, P - 1}, z \in {0, 9}}
@@ -203,8 +203,8 @@ Cases ==
          {XP("torsion", 0, p) : p \in (SubPts \cup {<<0, 0>>, <<0, P - 1>>, <<1, 0>>, <<3, 5>>})}
     [] Family = "torsion-all" ->
          {XP("torsion", 0, p) : p \in F \X F}
-    [] Family = "torsion-lines" ->   \* every point of the curve (all orders) and the two lines through the identity
-         {XP("torsion", 0, p) : p \in CurvePts \cup {p \in F \X F : p[1] = 0 \/ p[2] = 1}}
+    [] Family = "torsion-lines" ->   \* every point of the curve (all orders) and a few off-curve pairs (each case costs ~P^2 states)
+         {XP("torsion", 0, p) : p \in CurvePts \cup {<<0, 0>>, <<0, P - 1>>, <<1, 0>>, <<1, 1>>, <<3, 5>>}}
     [] Family = "fixed" ->
          {XP("fixed", x, p) : x \in AllX, p \in SubPts \ {<<0, 1>>}}
 
